@@ -8,7 +8,7 @@ CONSTANTS
   NPeers = 2
   BlockStores <- StoresAll
   ClearOnFail = TRUE
-  FreshDecode = FALSE
+  FreshDecode = TRUE
   PutPanics = FALSE
   AttemptTimeouts = TRUE
   CanonDecode = FALSE
